@@ -101,7 +101,8 @@ def run_property(prop, tier="quick", seed=0, jobs_n=None, only=None):
     t0 = time.time()
     import commonroad
 
-    assert os.path.realpath(commonroad.__file__).startswith("/repo/"), "commonroad is not imported from /repo"
+    repo = os.path.realpath(os.environ.get("VERIF_REPO", "/repo")) + "/"  # VERIF_REPO: seed tools only (a scratch worktree with a seeded change)
+    assert os.path.realpath(commonroad.__file__).startswith(repo), "commonroad is not imported from %s" % repo
     known = [k for k in load_known_findings() if k.get("property") == prop]
     regions = {k["obligation"]: k.get("region", "True") for k in known}
     jobs = list_contracts(prop)
